@@ -201,3 +201,87 @@ def returned_calls(g):
         else:
             walk(g.prov_call(inst, d[1]))
     return out
+
+
+def carried_assignments(g, live, e):
+    """all values ever stored into a loop-carried variable: a multiply-defined local (('var', inst, local)), or a field of a local struct
+    value (('field', ('agg', adt, ..), name)): its initial value in the aggregate plus every live assignment to that field.
+    Returns a list of stripped provenance expressions, or None when `e` is neither."""
+    if isinstance(e, tuple) and e and e[0] == "var":
+        inst0 = g.insts[e[1]]
+        out = []
+        for d in g.prog.defs(inst0.key).get(e[2], []):
+            if d[0] == "s":
+                st = inst0.body["blocks"][d[1]]["stmts"][d[2]]
+                out.append(strip_ids(g.prov_rvalue(inst0, st["rv"], None)))
+            else:
+                out.append(strip_ids(g.prov_call(inst0, d[1])))
+        return out
+    if isinstance(e, tuple) and e and e[0] == "field" and isinstance(e[1], tuple) and e[1] and e[1][0] == "agg" and isinstance(e[2], str):
+        agg, name = e[1], e[2]
+        out = []
+        adt = g.prog.facts.adts.get(agg[1]) if hasattr(g.prog, "facts") else None
+        names = None
+        if adt is not None and not adt["is_enum"]:
+            names = [f["name"] for f in adt["variants"][0]["fields"]]
+        if names and name in names and len(agg) > 3 and len(agg[3]) == len(names):
+            out.append(strip_ids(agg[3][names.index(name)]))
+        else:
+            return None
+        for n in live:
+            inst = g.inst(n)
+            for si, st in enumerate(g.stmts(n)):
+                if st["k"] == "assign" and st["p"]["proj"]:
+                    fl = [el for el in st["p"]["proj"] if isinstance(el, dict) and "f" in el]
+                    if fl and fl[-1].get("n") == name and (fl[-1].get("adt") or "") == agg[1] \
+                            and st["p"]["proj"][-1] is fl[-1]:
+                        out.append(strip_ids(g.prov_rvalue(inst, st["rv"], None)))
+        return out
+    return None
+
+
+ITER_ADAPTORS = r"iter::Iterator>?::(for_each|try_for_each|try_fold|fold|map|filter_map|inspect|all|any|find_map)$"
+
+
+def element_boundaries(g, P, src_pred):
+    """graph nodes at which the processing of the next element of an iterated source begins: `next()` calls on an iterator over the
+    source, and the entry blocks of closures handed to an iteration adaptor over it (`src.into_iter().try_for_each(|x| ..)`).
+    src_pred is applied to the stripped provenance of the iterator argument."""
+    out = set()
+    for n in P.calls(r"iter::Iterator>?::next$"):
+        a = event_args(g, n)
+        if a and src_pred(strip_ids(a[0])):
+            out.add(n)
+    for n in P.calls(ITER_ADAPTORS):
+        a = event_args(g, n)
+        if a and src_pred(strip_ids(a[0])):
+            for sub in g.closure_insts.get(n, []):
+                out.add((sub.id, 0))
+    return out
+
+
+def element_iterator(g, P, elem_expr_raw):
+    """(iterator expression (stripped), node) that an element value comes from: `okval(next(it))` in a loop, or the argument of a closure
+    that an iteration adaptor runs once per element; elem_expr_raw is UN-stripped provenance. None when neither."""
+    found = []
+
+    def walk(x):
+        if not isinstance(x, tuple) or not x:
+            return
+        if x[0] == "call" and len(x) > 3 and re.search(r"iter::Iterator>?::next$", str(x[1])) and x[2]:
+            found.append((strip_ids(x[2][0]), x[3]))
+            return
+        if x[0] == "cl_arg" and isinstance(x[1], int):
+            inst = g.insts[x[1]]
+            if inst.parent is not None:
+                cn = (inst.parent.id, inst.call_bb)
+                t = g.term(cn)
+                if t["k"] == "call" and re.search(ITER_ADAPTORS, t["callee"]["path"]) and inst in g.closure_insts.get(cn, []):
+                    a = event_args(g, cn)
+                    if a:
+                        found.append((strip_ids(a[0]), cn))
+            return
+        for y in x:
+            walk(y)
+    walk(elem_expr_raw)
+    return found[0] if found else None
